@@ -8,206 +8,12 @@ from __future__ import annotations
 
 import collections
 
-EPS = 1e-6
+EPS = 1e-8
 LATE = 5.0  # liveness bound in virtual seconds (generous multiple of the 0.1 s poll)
 
 
-class Act:
-    __slots__ = ('id', 'bus', 'ev', 'hi', 'enter_seq', 'exit_seq', 'how', 't_enter', 't_exit', 'hist_len', 'same_obj')
-
-    def __init__(self, id, bus, ev, hi, seq, t):
-        self.id, self.bus, self.ev, self.hi = id, bus, ev, hi
-        self.enter_seq, self.t_enter = seq, t
-        self.exit_seq = None
-        self.how = None
-        self.t_exit = None
-
-
-class Await:
-    __slots__ = ('actor', 'ev', 'b', 'e', 'tb', 'te', 'outcome', 'status', 'sig', 'results', 'same')
-
-    def __init__(self, actor, ev, b, tb):
-        self.actor, self.ev, self.b, self.tb = actor, ev, b, tb
-        self.e = None
-        self.te = None
-        self.outcome = None
-        self.status = None
-        self.sig = None
-        self.results = ()
-        self.same = None
-
-
-class Facts:
-    def __init__(self, sc, recs, final, res):
-        self.sc, self.recs, self.final, self.res = sc, recs, final, res
-        self.end = res.get('end')
-        self.settled = any(r[2] == 'settled' for r in recs[-3:]) if recs else False
-        self.last_seq = recs[-1][0] if recs else 0
-        self.last_t = recs[-1][1] if recs else 0.0
-        self.bus_cfg = {b['name']: b for b in sc['buses']}
-        self.handlers = sc['handlers']
-        self.accepted = collections.OrderedDict()  # (bus, ev) -> seq of first accepted dispatch
-        self.disps = []  # (seq, t, actor, bus, ev, outcome, histlen)
-        self.rejected = []
-        self.acts: dict[str, Act] = {}
-        self.enters = collections.defaultdict(list)  # (bus, ev, hi) -> [act ids]
-        self.awaits: list[Await] = []
-        self.sig = {}  # ev -> seq of first completion signal
-        self.sig_t = {}
-        self.pe = collections.defaultdict(list)  # (bus, ev) -> [[b, e, mode, exc, tb, te]]
-        self.deq = collections.defaultdict(list)  # (bus, ev) -> [(seq, mode)]
-        self.creator = {}  # ev -> actor
-        self.etype = {}
-        self.sid = {}
-        self.explicit_parent = {}
-        self.stops = []  # [bus, b, e, tb, te, timeout, actor, outcome]
-        self.idles = []  # [bus, b, e, tb, te, timeout, actor, outcome, state]
-        self.expects = []
-        self.evicts = []
-        self.ebus = []
-        self.cancels = []
-        self.results_ops = []
-        self.timeouts = {}  # ev -> event_timeout
-        open_aw = {}
-        open_pe = {}
-        open_stop = {}
-        open_idle = {}
-        for r in recs:
-            seq, t, k = r[0], r[1], r[2]
-            if k == 'cut':
-                # records after the cut are teardown artefacts
-                self.last_seq, self.last_t = seq, t
-                break
-            if k == 'new':
-                self.creator[r[3]] = r[5]
-                self.etype[r[3]] = r[4]
-                self.sid[r[3]] = r[6]
-                self.timeouts[r[3]] = r[7]
-            elif k == 'disp':
-                _, _, _, actor, bus, ev, outcome, hl = r
-                self.disps.append((seq, t, actor, bus, ev, outcome, hl))
-                if outcome == 'ok':
-                    self.accepted.setdefault((bus, ev), seq)
-                else:
-                    self.rejected.append((seq, actor, bus, ev, outcome))
-            elif k == 'enter':
-                a = Act(r[6], r[3], r[4], r[5], seq, t)
-                self.acts[a.id] = a
-                self.enters[(a.bus, a.ev, a.hi)].append(a.id)
-            elif k == 'exit':
-                a = self.acts.get(r[3])
-                if a is not None:
-                    a.exit_seq, a.how, a.t_exit = seq, r[4], t
-            elif k == 'aw_begin':
-                aw = Await(r[3], r[4], seq, t)
-                open_aw[(r[3], r[4])] = aw
-                self.awaits.append(aw)
-            elif k == 'aw_end':
-                aw = open_aw.pop((r[3], r[4]), None)
-                if aw is not None:
-                    aw.e, aw.te, aw.outcome, aw.status, aw.sig, aw.results, aw.same = seq, t, r[5], r[6], r[7], r[8], r[9]
-            elif k == 'sig':
-                self.sig.setdefault(r[3], seq)
-                self.sig_t.setdefault(r[3], t)
-            elif k == 'pe_begin':
-                x = [seq, None, r[5], None, t, None]
-                self.pe[(r[3], r[4])].append(x)
-                open_pe.setdefault((r[3], r[4]), []).append(x)
-            elif k in ('pe_end', 'pe_exc'):
-                lst = open_pe.get((r[3], r[4]))
-                if lst:
-                    x = lst.pop()
-                    x[1], x[5] = seq, t
-                    if k == 'pe_exc':
-                        x[3] = (r[5], r[6])
-            elif k == 'deq':
-                self.deq[(r[3], r[4])].append((seq, r[5]))
-            elif k == 'explicit_parent':
-                self.explicit_parent[r[3]] = r[4]
-            elif k == 'stop_begin':
-                x = [r[4], seq, None, t, None, r[5], r[3], None, r[6]]
-                open_stop[(r[3], r[4])] = x
-                self.stops.append(x)
-            elif k == 'stop_end':
-                x = open_stop.pop((r[3], r[4]), None)
-                if x is not None:
-                    x[2], x[4], x[7] = seq, t, r[5]
-            elif k == 'idle_begin':
-                x = [r[4], seq, None, t, None, r[5], r[3], None, None]
-                open_idle[(r[3], r[4])] = x
-                self.idles.append(x)
-            elif k == 'idle_end':
-                x = open_idle.pop((r[3], r[4]), None)
-                if x is not None:
-                    x[2], x[4], x[7], x[8] = seq, t, r[5], r[6]
-            elif k == 'evict':
-                self.evicts.append((seq, r[3], r[4], r[5], r[6]))
-            elif k == 'ebus':
-                self.ebus.append((seq, r[3], r[4], r[5]))
-            elif k == 'cancel':
-                self.cancels.append((seq, t, r[3], r[4]))
-            elif k == 'results':
-                self.results_ops.append(r)
-            elif k == 'expect_begin' or k == 'expect_end':
-                self.expects.append(r)
-        # ground truth tree: children of an event = events created by its activations and accepted somewhere
-        self.accepted_events = {ev for (_, ev) in self.accepted}
-        self.kids = collections.defaultdict(list)
-        for ev, actor in self.creator.items():
-            a = self.acts.get(actor)
-            if a is not None and ev in self.accepted_events:
-                self.kids[a.ev].append(ev)
-        self._desc = {}
-        # buses that were stopped (from the first stop_begin on)
-        self.stopped_from = {}
-        for x in self.stops:
-            if x[8]:  # was running
-                self.stopped_from.setdefault(x[0], x[1])
-        for seq, t, target, by in self.cancels:
-            if target.startswith('runloop:'):
-                self.stopped_from.setdefault(target.split(':', 1)[1], seq)
-            if target == 'ALL':
-                for b in self.bus_cfg:
-                    self.stopped_from.setdefault(b, seq)
-
-    def desc(self, ev):
-        d = self._desc.get(ev)
-        if d is None:
-            d = set()
-            stack = [ev]
-            while stack:
-                x = stack.pop()
-                for c in self.kids.get(x, ()):
-                    if c not in d:
-                        d.add(c)
-                        stack.append(c)
-            self._desc[ev] = d
-        return d
-
-    def matching_handlers(self, bus, ev):
-        typ = self.etype.get(ev)
-        out = []
-        for hi, h in enumerate(self.handlers):
-            if h['bus'] == bus and h.get('kind') != 'forward' and h['pattern'] in (typ, '*'):
-                out.append(hi)
-        return out
-
-    def live_at(self, seq):
-        return [a for a in self.acts.values() if a.enter_seq < seq and (a.exit_seq is None or a.exit_seq > seq)]
-
-    def awaiting_at(self, seq):
-        """{actor: awaited event} for in-handler/caller awaits open at seq."""
-        return {aw.actor: aw.ev for aw in self.awaits if aw.b < seq and (aw.e is None or aw.e > seq)}
-
-    def processed(self, bus, ev, before=None):
-        for x in self.pe.get((bus, ev), ()):
-            if x[1] is not None and (before is None or x[1] < before):
-                return True
-        return False
-
-    def bus_stopped_before(self, bus, seq=None):
-        s = self.stopped_from.get(bus)
-        return s is not None and (seq is None or s < seq)
+from .facts import Act, Await, Facts  # noqa: F401
+from . import diagnose as _dg
 
 
 def V(prop, clause, key, **detail):
@@ -247,6 +53,10 @@ def c01(F: Facts):
             if n > 1:
                 out.append(V('C01', 'duplicate', (bus, ev, hi), n=n))
             elif n == 0 and F.settled and not F.bus_stopped_before(bus):
+                # a child whose processing was interrupted by its (grand)parent handler's timeout has its
+                # remaining handlers cancelled by design (C10); everything else must have been delivered
+                if _dg.aborted_any(F, bus, ev) and not _dg.aborted_unrelated(F, ev):
+                    continue
                 out.append(V('C01', 'missing', (bus, ev, hi)))
     for (bus, ev, hi), acts in F.enters.items():
         a0 = F.acts[acts[0]]
@@ -305,7 +115,6 @@ def c02(F: Facts):
                     aw = F.awaiting_at(a.enter_seq)
                 if y.id not in aw:
                     out.append(V('C02', 'serial_overlap', (a.bus, y.ev, a.ev), running=y.id, started=a.id))
-    out += hang_violations(F, 'C02')
     return out
 
 
@@ -313,7 +122,10 @@ def c02(F: Facts):
 def _tree_incomplete(F: Facts, root, at_seq):
     """Descendants of root that are not complete at at_seq: [(ev, why)]."""
     bad = []
+    first_acc = F.first_accept
     for d in sorted(F.desc(root), key=lambda n: int(n[1:])):
+        if first_acc.get(d, 1 << 60) > at_seq:
+            continue  # dispatched only after the instant we judge
         s = F.sig.get(d)
         if s is None or s > at_seq:
             bad.append((d, 'not_signalled'))
@@ -512,17 +324,20 @@ def c07(F: Facts):
         if F.settled:
             if got != reach:
                 out.append(V('C07', 'reach_set', (ev,), expected=sorted(reach), got=sorted(got)))
-            for bus in got:
-                n = len(F.pe[(bus, ev)])
-                if n != 1:
-                    out.append(V('C07', 'processed_twice', (ev, bus), n=n))
+            for bus in got & reach:
+                for hi in F.matching_handlers(bus, ev):
+                    n = len(F.enters.get((bus, ev, hi), ()))
+                    if n != 1 and not any(p[3] for p in F.pe[(bus, ev)]):
+                        out.append(V('C07', 'handler_count', (ev, bus, hi), n=n))
         else:
             extra = got - reach
             if extra:
                 out.append(V('C07', 'reach_set', (ev,), expected=sorted(reach), got=sorted(got)))
             for bus in got:
-                if len(F.pe[(bus, ev)]) > 1:
-                    out.append(V('C07', 'processed_twice', (ev, bus), n=len(F.pe[(bus, ev)])))
+                for hi in F.matching_handlers(bus, ev):
+                    n = len(F.enters.get((bus, ev, hi), ()))
+                    if n > 1:
+                        out.append(V('C07', 'handler_count', (ev, bus, hi), n=n))
         e = evs.get(ev)
         if e is not None and F.settled:
             order = []
@@ -621,8 +436,9 @@ def c10(F: Facts):
                 for rr in e['results']:
                     if rr['bus'] == a.bus and rr['h'] and tuple(rr['h'][:2]) == ('h', a.hi):
                         r = rr
-            if r is None or r['status'] != 'error' or r['err'] != 'TimeoutError':
-                if not (abs(a.t_exit - deadline) <= EPS and False):
+            tie = abs(a.t_exit - deadline) <= EPS  # ended exactly at the deadline: may end either way
+            if r is None or r['status'] != 'error' or (r['err'] != 'TimeoutError' and not (tie and r['err'] == 'CancelledError')):
+                if True:
                     out.append(V('C10', 'timeout_result', (a.bus, a.ev, a.hi), result=(r['status'], r['err']) if r else None))
     # cancelled before own deadline: must be explained by an enclosing activation timing out at that instant
     for a in F.acts.values():
@@ -681,16 +497,14 @@ def c11(F: Facts, raised_acts):
             out.append(V('C11', 'await_raised', (aw.actor, aw.ev), outcome=aw.outcome))
     # accessors
     for r in F.results_ops:
-        _, _, _, actor, ev, accessor, flag, outcome, extra = r
-        e = evs.get(ev)
-        if not e:
-            continue
-        errs = [rr for rr in e['results'] if rr['status'] == 'error']
+        _, _, _, actor, ev, accessor, flag, outcome, extra, errs, errs_after = r
         if flag:
             if errs and not outcome.startswith('exc:'):
-                out.append(V('C11', 'accessor_did_not_raise', (ev, accessor)))
-            if errs and outcome.startswith('exc:') and errs[0]['err_ident'] is not None and extra != errs[0]['err_ident']:
-                out.append(V('C11', 'accessor_wrong_exception', (ev, accessor), got=extra, expected=errs[0]['err_ident']))
+                out.append(V('C11', 'accessor_did_not_raise', (ev, accessor), errors=errs))
+            if errs and outcome.startswith('exc:') and extra != errs[0]:
+                out.append(V('C11', 'accessor_wrong_exception', (ev, accessor), got=extra, expected=errs[0]))
+            if not errs and outcome.startswith('exc:') and extra not in errs_after:
+                out.append(V('C11', 'accessor_raised_without_error', (ev, accessor), outcome=outcome))
         else:
             if outcome.startswith('exc:'):
                 out.append(V('C11', 'accessor_raised', (ev, accessor), outcome=outcome))
